@@ -74,6 +74,17 @@ def _component(b, op, hops=6):
     return op
 
 
+def in_flag(b, block, field, value):
+    """is `block` entered only while the bool field `self.<field>` has `value` (a direct test, or a destructured reference to the field)"""
+    want = "true" if value else "false"
+    for d, l, _ in dom_guards(b, block):
+        if (d == "self." + field or d.endswith("." + field) or d == field) and l == want:
+            return True
+        if d in ("Not(self.%s)" % field,) and l == ("false" if value else "true"):
+            return True
+    return False
+
+
 def run(ctx):
     rc = ctx.crate(RC)
     md = ctx.crate(MD)
@@ -354,6 +365,22 @@ def run(ctx):
             sp = [c for c in ch.calls if c.name == "write_str" and len(c.args) == 2 and describe_operand(ch, c.args[1]) == "' '"]
             r.check(not sp, "%s/complete_header/does-not-commit-to-braceless-single-item" % short_, sp[0].loc() if sp else where(ch), "complete_header leaves the form of a single item to the item writers",
                     "complete_header writes the separator of the brace-less single-item form before the kind of the item is known: a slot then follows the attributes without braces")
+
+    with ctx.rule("C09.R1d", "T1", "a printer that a body was delegated to writes inside the enclosure that is already open", floor=1) as r:
+        # `#[form(body)]` hands the *same* printer on (`delegate()` sets `delegated`): the value of the body field is written where the struct's own
+        # body would be. For the attribute printer that place is inside the `(` opened when the struct began; a second `(` from the delegated
+        # record() is never closed - `@inner(@Inner( { 1, 2 })` (F64)
+        rec_ = [b for b in rc.all_bodies() if b.meta.get("name") == "record" and (b.meta.get("self_adt") or "").endswith("printer::AttributePrinter") and _suffix_match(b.meta.get("trait"), "write::StructuralWriter")]
+        if len(rec_) != 1:
+            raise AnchorMissing("AttributePrinter::record (found %d)" % len(rec_))
+        rec_ = ctx.saw(rec_[0])
+        opens_ = [c for c in rec_.calls if c.name in ("write_fmt", "write_str", "write_char") and len(c.args) >= 2 and re.search(r"b'[^']*\(|^'\('$|^\"\(", describe_operand(rec_, c.args[1]))]
+        if not opens_:
+            raise AnchorMissing("AttributePrinter::record: the write of the opening parenthesis")
+        for c in opens_:
+            r.check(in_flag(rec_, c.block, "delegated", False), "AttributePrinter/record/paren-only-when-not-delegated", c.loc(), "`(` is written only by a printer that was not delegated to",
+                    "AttributePrinter::record writes `(` also when the printer was delegated to: a struct with a #[form(body)] collection used as an attribute of another struct is printed with a second, "
+                    "never closed `(` (`@inner(@Inner( { 1, 2 })`), which does not parse")
 
     with ctx.rule("C09.R2", "T5", "escape tables of printer and tokenizer are mutually inverse", floor=12) as r:
         et = ctx.saw(md.fn(suffix="literal::escape_text"))
